@@ -4,7 +4,9 @@
 # anything else against /repo meanwhile.
 set -u
 tier="${1:-quick}"
-cd /verif
+# SEED_VERIF / SEED_REPO: run against a private copy made by tools/scratch_env.sh
+V="${SEED_VERIF:-/verif}"; R="${SEED_REPO:-/repo}"
+cd "$V"
 out=seeded/STATUS.md
 {
 echo "# Seeded changes vs checks (tier: $tier)"
@@ -18,16 +20,17 @@ echo "|---|---|---|---|---|"
 } > $out
 for d in seeded/C*/; do
   id=$(basename $d)
+  if [ -n "${SEED_IDS:-}" ] && ! echo " $SEED_IDS " | grep -q " $id "; then continue; fi
   prop=$(python3 -c "import json;print(json.load(open('$d/meta.json'))['property'])")
   with=$(python3 -c "import json;d=json.load(open('$d/meta.json'));print(d.get('check_with',d['property']))")
   patch=$d/patch.diff; note=""
   if [ -f $d/patch.rebased.diff ]; then patch=$d/patch.rebased.diff; note=" (rebased)"; fi
-  if ! git -C /repo diff --quiet; then echo "repo dirty"; exit 2; fi
-  if ! git -C /repo apply $(pwd)/$patch 2>/dev/null; then
+  if ! git -C "$R" diff --quiet; then echo "repo dirty"; exit 2; fi
+  if ! git -C "$R" apply $(pwd)/$patch 2>/dev/null; then
     echo "| $id | $prop | patch does not apply | - | |" >> $out; continue
   fi
   log=$(./check $with $tier 2>&1); rc=$?
-  git -C /repo checkout -- .
+  git -C "$R" checkout -- .
   classes=$(echo "$log" | grep -E "^  class:" | sed 's/  class: //' | head -3 | tr '\n' ';' | sed 's/|/\\|/g')
   det="NO"; [ $rc -eq 1 ] && det="yes"
   [ "$with" != "$prop" ] && note="$note (checked with $with)"
